@@ -11,11 +11,16 @@ ShapesT == ShapesQ \cup
            { <<D("ms_p2wsh", 2, <<1, 2, 3, 4>>, "c"), D("p2sh_p2wpkh", 1, <<4>>, "c"), D("p2pk", 1, <<2>>, "c")>>,
              <<D("ms_bare", 3, <<4, 3, 2, 1>>, "c")>> }
 HTq == {1, 131}
+ShapesOC == { <<D("ms_p2sh", 2, <<1, 2, 3>>, "c"), D("p2pkh", 1, <<1>>, "u")>> }
 CoinsQ == {"BTC", "BCH"}
+CoinsD == {"BTG"}
+HTd == {3}
+ShapesW == { <<D("ms_p2sh", 2, <<1, 2, 3>>, "c"), D("p2pkh", 1, <<1>>, "u")>>,
+             <<D("p2sh_p2wpkh", 1, <<2>>, "c"), D("ms_bare", 1, <<3, 2>>, "u")>> }
 \* "deep" configurations: plain key sets, scripts always supplied, one mechanism - but every
 \* subset of keys and of inputs, to the full depth
 DeepPasses == {p \in AllPasses : p.mech = "lookup" /\ p.scr /\ p.reg = {} /\ p.sec = {} /\ p.fresh /\ p.I # {}}
 \* "wide" configurations: every mechanism, keychain tables, missing scripts - fewer key subsets
 WidePasses == {p \in AllPasses : /\ Canonical(p) /\ p.I # {}
-                                  /\ Cardinality(p.K) <= 2 /\ Cardinality(p.reg) \in {0, 2, NK}}
+                                  /\ Cardinality(p.K) \in {0, 1, NK} /\ p.reg \in {{}, {1, 2}, {2, 3}, Keys}}
 =============================================================================
